@@ -35,6 +35,7 @@ const (
 	lblNone     label = 0
 	lblInterior label = 1
 	lblCaller   label = 2
+	lblShared   label = 3
 )
 
 func (l label) String() string {
@@ -43,6 +44,8 @@ func (l label) String() string {
 		return "a slice/map that belongs to an existing item or message"
 	case lblCaller:
 		return "a slice/map owned by the caller"
+	case lblShared:
+		return "package-level storage shared by all calls"
 	}
 	return ""
 }
@@ -301,6 +304,9 @@ func ruleImmut(p *Prog, r *Report) {
 					if x.Op != token.MUL || !isRefType(x.Type()) {
 						continue
 					}
+					if g, ok := x.X.(*ssa.Global); ok && g.Pkg != nil && InModule(fn) && strings.HasPrefix(g.Pkg.Pkg.Path(), modPath) {
+						im.setLabel(x, lblShared, "package-level variable "+g.Name())
+					}
 					if fa, ok := x.X.(*ssa.FieldAddr); ok {
 						if n := namedStruct(fa.X.Type()); n != nil && im.immutable[n] && !isFreshAlloc(rootOf(fa), fn) {
 							im.setLabel(x, lblInterior, fmt.Sprintf("field %s of a %s", fieldOf(fa).Name(), n.Obj().Name()))
@@ -513,8 +519,8 @@ func ruleImmut(p *Prog, r *Report) {
 							continue
 						}
 						for _, c := range callees {
-							if InModule(c) {
-								continue
+							if InModule(c) || c.Synthetic != "" {
+								continue // module code, or a compiler-made wrapper/thunk that only forwards
 							}
 							path := ""
 							if c.Pkg != nil {
@@ -589,7 +595,32 @@ func ruleImmut(p *Prog, r *Report) {
 						}
 					}
 				}
-				if written {
+				holdsMutable := ""
+				for n := range im.mutable {
+					if mentions(g.Type().(*types.Pointer).Elem(), n) {
+						holdsMutable = n.Obj().Name()
+					}
+				}
+				// a store through the pointer held by the global
+				for _, fn := range p.Funcs {
+					for _, b := range fn.Blocks {
+						for _, instr := range b.Instrs {
+							if st, ok := instr.(*ssa.Store); ok {
+								if ld, ok := rootOf(st.Addr).(*ssa.UnOp); ok && ld.X == ssa.Value(g) && fn.Name() != "init" {
+									written = true
+								}
+								if ia, ok := st.Addr.(*ssa.IndexAddr); ok {
+									if ld, ok := ia.X.(*ssa.UnOp); ok && ld.X == ssa.Value(g) && fn.Name() != "init" {
+										written = true
+									}
+								}
+							}
+						}
+					}
+				}
+				if holdsMutable != "" {
+					r.bad(rule, key, p.Pos(g.Pos()), fmt.Sprintf("package-level variable %s.%s holds the mutable helper struct %s: per-call state shared by all calls and goroutines", name, mname, holdsMutable))
+				} else if written {
 					r.bad(rule, key, p.Pos(g.Pos()), fmt.Sprintf("package-level variable %s.%s is written after initialisation: state shared by all calls and goroutines", name, mname))
 				} else if isRefType(g.Type().(*types.Pointer).Elem()) {
 					r.bad(rule, key, p.Pos(g.Pos()), fmt.Sprintf("package-level %s.%s is a slice or map: shared storage that the analysis does not track", name, mname))
